@@ -39,19 +39,19 @@ def isMode (xs : List Rat) (v : Rat) : Bool :=
 def perChannel {α : Type} (stat : List Rat → α) (cols : List (List Rat)) (chs : List Nat) : List α :=
   chs.map (fun c => stat (cols.getD c []))
 
-/-- what each public function of `stats.py` is in the source: (name, channel slicing rule, numeric statements).  The model's
+/-- what each public function of `stats.py` is in the source: (name, body with local names normalised to v0, v1, … in order of first appearance).  The model's
 `mean`, `variance` (population, `np.std**2`), `quantile` (NumPy's linear interpolation at 25/50/75 %), `iqr`, `rcv`, `isMode` and
 `perChannel` (column-wise, one result per selected channel) stand for exactly these NumPy calls. -/
-def sourceSpec : List (String × String × String) :=
-  [("mean", "if channels is None: ; data_stats = data ; else: ; data_stats = data[:, channels]", "return np.mean(data_stats, axis=0)"),
-   ("gmean", "if channels is None: ; data_stats = data ; else: ; data_stats = data[:, channels]", "return scipy.stats.gmean(data_stats, axis=0)"),
-   ("median", "if channels is None: ; data_stats = data ; else: ; data_stats = data[:, channels]", "return np.median(data_stats, axis=0)"),
-   ("mode", "if channels is None: ; data_stats = data ; else: ; data_stats = data[:, channels] | if mode_values.ndim == np.ndim(data_stats): ; mode_values = mode_values[0]", "mode_values = np.asarray(scipy.stats.mode(data_stats, axis=0)[0]) ; return mode_values[()]"),
-   ("std", "if channels is None: ; data_stats = data ; else: ; data_stats = data[:, channels]", "return np.std(data_stats, axis=0)"),
-   ("cv", "if channels is None: ; data_stats = data ; else: ; data_stats = data[:, channels]", "return np.std(data_stats, axis=0) / np.mean(data_stats, axis=0)"),
-   ("gstd", "if channels is None: ; data_stats = data ; else: ; data_stats = data[:, channels]", "return np.exp(np.std(np.log(data_stats, dtype=np.float64), axis=0))"),
-   ("gcv", "if channels is None: ; data_stats = data ; else: ; data_stats = data[:, channels]", "return np.sqrt(np.exp(np.std(np.log(data_stats, dtype=np.float64), axis=0) ** 2) - 1)"),
-   ("iqr", "if channels is None: ; data_stats = data ; else: ; data_stats = data[:, channels]", "q75, q25 = np.percentile(data_stats, [75, 25], axis=0) ; return q75 - q25"),
-   ("rcv", "if channels is None: ; data_stats = data ; else: ; data_stats = data[:, channels]", "q75, q25 = np.percentile(data_stats, [75, 25], axis=0) ; return (q75 - q25) / np.median(data_stats, axis=0)")]
+def sourceSpec : List (String × String) :=
+  [("mean", "if channels is None: ; v0 = data ; else: ; v0 = data[:, channels] ; return np.mean(v0, axis=0)"),
+   ("gmean", "if channels is None: ; v0 = data ; else: ; v0 = data[:, channels] ; return scipy.stats.gmean(v0, axis=0)"),
+   ("median", "if channels is None: ; v0 = data ; else: ; v0 = data[:, channels] ; return np.median(v0, axis=0)"),
+   ("mode", "if channels is None: ; v0 = data ; else: ; v0 = data[:, channels] ; v1 = np.asarray(scipy.stats.mode(v0, axis=0)[0]) ; if v1.ndim == np.ndim(v0): ; v1 = v1[0] ; return v1[()]"),
+   ("std", "if channels is None: ; v0 = data ; else: ; v0 = data[:, channels] ; return np.std(v0, axis=0)"),
+   ("cv", "if channels is None: ; v0 = data ; else: ; v0 = data[:, channels] ; return np.std(v0, axis=0) / np.mean(v0, axis=0)"),
+   ("gstd", "if channels is None: ; v0 = data ; else: ; v0 = data[:, channels] ; return np.exp(np.std(np.log(v0, dtype=np.float64), axis=0))"),
+   ("gcv", "if channels is None: ; v0 = data ; else: ; v0 = data[:, channels] ; return np.sqrt(np.exp(np.std(np.log(v0, dtype=np.float64), axis=0) ** 2) - 1)"),
+   ("iqr", "if channels is None: ; v0 = data ; else: ; v0 = data[:, channels] ; v1, v2 = np.percentile(v0, [75, 25], axis=0) ; return v1 - v2"),
+   ("rcv", "if channels is None: ; v0 = data ; else: ; v0 = data[:, channels] ; v1, v2 = np.percentile(v0, [75, 25], axis=0) ; return (v1 - v2) / np.median(v0, axis=0)")]
 
 end FlowCal.Stats
